@@ -24,10 +24,11 @@ share nothing with it but the directory): every crash state is judged
   4. every retained snapshot is fully readable with the rows recorded for it;
   5. a follow-up append succeeds and is visible, with all recovered rows,
      after another reopen;
-  6. 25 h later `garbage_collect(1 h)` does not raise, deletes only files that
-     no retained snapshot reaches (and nothing outside data/, manifests/,
-     inflight/), leaves the table unchanged, and afterwards no temp file,
-     marker or orphan remains in the directories it sweeps.
+  6. `garbage_collect(1 h)` 2 h later (the dead writer's markers still protect)
+     and again 25 h later (markers abandoned) does not raise, deletes only
+     files that no retained snapshot reaches (and nothing outside data/,
+     manifests/, inflight/), leaves the table unchanged, and after the second
+     one no temp file, marker or orphan remains in the directories it sweeps.
 """
 from __future__ import annotations
 
@@ -59,6 +60,7 @@ QUICK: List[Tuple[str, str]] = [
     ("delete_snapshot", "s3"),
     ("delete_current", "s3"),
     ("gc", "gcbase"),
+    ("append", "s3r"),  # retention-count=2: the append prunes a snapshot in the same commit
     # "start from non-initial states": the base is itself a crash state of an append on s1
     ("append", "left_preflip"), ("gc", "left_mid"), ("gc", "left_preflip"), ("delete_files", "left_postflip"),
 ]
@@ -83,6 +85,10 @@ NESTED: Dict[Tuple[str, str], List[str]] = {
     ("append", "s1"): ["append", "delete_files", "gc"],
     ("delete_files", "s3"): ["append", "gc"],
     ("gc", "gcbase"): ["gc", "append"],
+    ("expire", "s3"): ["append", "gc"],
+    ("delete_current", "s3"): ["append", "gc"],
+    ("append_delete_tx", "s3"): ["gc", "delete_files"],
+    ("append", "s3r"): ["append"],
 }
 SWEPT = ("data/", "metadata/manifests/", "metadata/inflight/")
 
@@ -94,10 +100,17 @@ def _j(x: Any) -> Any:
     return json.loads(json.dumps(x, sort_keys=True, default=repr))
 
 
-def _logical(root: str) -> Dict[str, Any]:
-    """Independent reading of an un-crashed table: metadata document + rows of every snapshot."""
+def _logical(root: str, adoptable_v0: bool = False) -> Dict[str, Any]:
+    """Independent reading of an un-crashed table: metadata document + rows of every snapshot.
+    `adoptable_v0` (creation only): without a pointer, the table is the single v0 metadata file a dead creator
+    left behind (a retrying creator adopts it and, writing nothing, never creates the pointer)."""
+    view = reader.LocalView(root)
     try:
-        ts = reader.TableState(reader.LocalView(root))
+        ts = reader.TableState(view)
+        if ts.md is None and adoptable_v0 and view.get(reader.HINT) is None:
+            mds = reader.metadata_files(view)
+            if len(mds) == 1 and mds[0][0] == 0:
+                ts = reader.TableState(view, name=mds[0][1])
     except reader.ReadError as e:
         return {"md": None, "rows": {}, "errors": [str(e)]}
     if ts.md is None:
@@ -143,6 +156,19 @@ def build_base(base: str, root: str, work: str) -> None:
         return
     if base in ("s0", "s1", "s3", "s5"):
         _build_s(root, int(base[1:]))
+        return
+    if base == "s3r":
+        # no public setter for table properties: one metadata-only commit through the metadata manager
+        import copy
+
+        _build_s(root, 3)
+        t = load_table(root)
+        md = t.metadata_manager.refresh()
+        new = copy.deepcopy(md)
+        new.properties = dict(md.properties, **{"datashard.snapshot.retention-count": "2",
+                                                "write.metadata.previous-versions-max": "2"})
+        t.metadata_manager.commit(md, new)
+        ENV.advance(1.0)
         return
     if base == "gcbase":
         # natural orphans (an expired history) + planted leftovers of dead writers
@@ -286,7 +312,7 @@ def record(payload: Tuple[Any, ...]) -> Dict[str, Any]:
             shutil.copytree(src["path"], root, symlinks=True)
         else:
             build_base(base, root, work)
-        pre = _logical(root)
+        pre = _logical(root, op == "create")
         if pre["errors"] or (pre["md"] is None and op != "create"):
             raise HarnessError(f"independent reader: {pre['errors'] or 'no table'}")
         thunk = prepare(op, root)
@@ -299,7 +325,7 @@ def record(payload: Tuple[Any, ...]) -> Dict[str, Any]:
                 "torn_built": 0}
     rec = CrashRecorder(root, os.path.join(work, "s"))
     _run_recorded(rec, thunk)
-    post = _logical(root)
+    post = _logical(root, op == "create")
     kind = "create" if op == "create" else ("gc" if op == "gc" else "commit")
     if kind == "commit" and (not rec.has_flip or pre["md"] == post["md"]):
         raise HarnessError(f"{op}/{base}: the operation did not advance the pointer")
@@ -500,19 +526,42 @@ class Judge:
         self._agree(t2, ts2, "after_followup_append")
         if ts2.current_rows() != want:
             self.fail("followup_append_rows_wrong", observed=ts2.current_rows()[:12], expected=want[:12])
-        ids2 = ts2.snapshot_ids()
-        if ids2[:-1] != ts.snapshot_ids() or len(ids2) != len(ts.snapshot_ids()) + 1:
-            self.fail("followup_append_changed_history", before=ts.snapshot_ids(), after=ids2)
+        ids2, ids1 = ts2.snapshot_ids(), ts.snapshot_ids()
+        retention = (ts.md.get("properties") or {}).get("datashard.snapshot.retention-count")
+        if retention is None:
+            history_ok = ids2[:-1] == ids1
+        else:  # opt-in retention: the follow-up append itself prunes the oldest snapshots
+            n = max(int(retention), 1)
+            history_ok = ids2[:-1] == ids1[len(ids1) - len(ids2[:-1]):] and len(ids2) == min(len(ids1) + 1, n)
+        if not history_ok or not ids2 or ids2[-1] in ids1 or ts2.current_id != ids2[-1]:
+            self.fail("followup_append_changed_history", before=ids1, after=ids2, retention=retention)
         for sid, sv in ts.snaps.items():
             if sid in ts2.snaps and ts2.snaps[sid].rows != sv.rows:
                 self.fail("followup_append_changed_old_snapshot", snapshot=sid)
         self.rep.add("followup_appends_ok")
         self.ok()
 
-        # 6. a later garbage collection
-        ENV.advance(DAY_PLUS)
+        # 6a. an early garbage collection (2 h after the crash: the dead writer's markers still protect): safety only
+        ENV.advance(2 * 3600.0)
         before = self.view.list()
         reach = ts2.reachable()
+        try:
+            load_table(self.root).garbage_collect(GRACE_MS)
+        except Exception as e:  # noqa
+            self.fail("early_followup_gc_raised", stop=True, error=repr(e)[:400])
+        deleted = before - self.view.list()
+        if deleted & reach:
+            self.fail("early_followup_gc_deleted_reachable_file", files=sorted(deleted & reach))
+        outside = sorted(f for f in deleted if not _swept(f))
+        if outside:
+            self.fail("early_followup_gc_deleted_file_outside_its_scope", files=outside)
+        self.rep.add("leftovers_removed_by_early_gc", len(deleted))
+        early = len(deleted)
+        self.ok()
+
+        # 6b. a later garbage collection (markers abandoned): safety + nothing unreachable may remain
+        ENV.advance(DAY_PLUS)
+        before = self.view.list()
         t3 = load_table(self.root)
         try:
             t3.garbage_collect(GRACE_MS)
@@ -534,8 +583,8 @@ class Judge:
         else:
             self._agree(load_table(self.root), ts3, "after_followup_gc")
         self.rep.add("followup_gc_ok")
-        self.rep.add("leftovers_removed", len(deleted))
-        self.rep.add("states_with_leftovers_removed", 1 if deleted else 0)
+        self.rep.add("leftovers_removed", len(deleted) + early)
+        self.rep.add("states_with_leftovers_removed", 1 if (deleted or early) else 0)
         unswept = [f for f in after if os.path.basename(f).startswith(".tmp.") and not _swept(f)]
         self.rep.add("unswept_temp_files_outside_gc_scope_informational", len(unswept))
         self.ok()
@@ -703,8 +752,8 @@ def run(tier: str, seed: int) -> Report:
         "table with the creator's schema (adoption of the creator's v0 file)",
         "garbage collection: PRE == POST logically; any subset of the complete run's deletions is accepted, nothing else "
         "may be missing",
-        "the follow-up garbage collection runs 25 h after the crash through the public Table.garbage_collect(1 h), so that "
-        "the dead writer's markers count as abandoned; 'removes only leftovers' is judged as: every deleted file is "
+        "follow-up garbage collections run through the public Table.garbage_collect(1 h): one 2 h after the crash (safety "
+        "only) and one 25 h later, when the dead writer's markers count as abandoned; 'removes only leftovers' is judged as: every deleted file is "
         "unreachable from every retained snapshot and lies in data/, metadata/manifests/ or metadata/inflight/; "
         "non-vacuity: nothing unreachable remains in these three directories afterwards",
         "leftovers OUTSIDE the collector's scope are counted, not judged: orphan vN-*.metadata.json of a dead commit "
